@@ -538,6 +538,10 @@ def multi_file_cases(ctx, wd):
                 elif r[:2] != base[:2]:
                     if alias_missing(prog, r[2]):
                         sig = f"{route}:module-alias-not-resolvable"
+                    elif route == "aasm" and (os.path.basename(entry) + ".toml") in files:
+                        # assembly text carries no manifest, and a per-file manifest is named after the ENTRY file: the saved
+                        # .aasm (whatever it is called) is run without the policies `<entry>.toml` declares (KF-C08-12)
+                        sig = "aasm:per-file-manifest-not-carried"
                     elif (lm := re.search(r"^\s*needs\s+(math|io|string|fs|net|sys|time|bytes|convert)\b(?!\.)", prog, flags=re.M)) and (lm.group(1) + ".aelys") in files:
                         # `needs math` with a math.aelys next to the entry file: the saved program only says `math::..`,
                         # and the bytecode route tries std.<name> before a script module of that name
